@@ -29,14 +29,18 @@ class CustomError(Exception):
 
 EXC = {"ValueError": ValueError, "ZeroDivisionError": ZeroDivisionError, "CustomError": CustomError,
        "ObjectiveFailure": ObjectiveFailure, "KeyboardInterrupt": KeyboardInterrupt, "SystemExit": SystemExit,
-       "GeneratorExit": GeneratorExit}
+       "GeneratorExit": GeneratorExit, "StopIteration": StopIteration, "MemoryError": MemoryError}
+# how the exception object is built: with a message, with no argument at all (a real Ctrl-C is a bare
+# KeyboardInterrupt), with several arguments.  The form rotates with the fault position and the type, so every
+# (type, form) pair occurs in every enumerated run of length >= 4.
+FORMS = (None, (), (3, "three"))
 
 NMAX = {"quick": 60, "thorough": 80}
 _tier = ["quick"]
 
 
 # thorough tier: coverage-guided (atheris) drive of the same generator and oracle: kind -> (shards, cases per shard)
-FUZZ = {"generated": (8, 30)}
+FUZZ = {"enumerated": (8, 30)}
 
 
 def plan(tier):
@@ -54,15 +58,18 @@ def cases(draw):
     return {"recipe": recipe, "params": params}
 
 
-def fault_run(case, k, excname, clean):
+def fault_run(case, k, excname, clean, form=0):
     run = Run(case["recipe"], case["params"])
     run.problem.fail_at = k
     run.problem.fail_exc = EXC[excname]
+    run.problem.fail_args = FORMS[form]
+    how = "%s(%s)" % (excname, "'message'" if FORMS[form] is None else ", ".join(map(repr, FORMS[form])))
     try:
         sol = run.solve()
     except BaseException as e:
-        fail("%s raised by the objective at evaluation %d escaped from Solve (%s)" % (excname, k, type(e).__name__))
-    who = "objective raising %s at evaluation %d of %d: " % (excname, k, len(clean))
+        fail("%s raised by the objective at evaluation %d escaped from Solve (as %s: %s)" %
+             (how, k, type(e).__name__, str(e)[:100]))
+    who = "objective raising %s at evaluation %d of %d: " % (how, k, len(clean))
     got = [(y, v) for _, y, v in run.problem.log]
     if got != clean[:k - 1]:
         fail(who + "%d successful evaluations, expected the first %d of the clean run" % (len(got), k - 1))
@@ -97,8 +104,8 @@ def body(case):
     for k in range(2, n + 1):
         prev = info[k - 2]           # trial k-1
         hot = prev["improved"] or prev["grew"]
-        for name in EXC:
-            fault_run(case, k, name, clean)
+        for idx, name in enumerate(EXC):
+            fault_run(case, k, name, clean, (k + idx) % len(FORMS))
             runs += 1
             if hot:
                 interesting += 1
